@@ -11,7 +11,8 @@ git -C /repo worktree add -q --detach $wt HEAD || exit 2
 trap 'git -C /repo worktree remove --force $wt >/dev/null 2>&1; rm -rf $wt' EXIT
 demo_clean=NA; demo_mut=NA
 if [ -f $src/demo.sh ]; then bash $src/demo.sh $wt >/dev/null 2>&1; demo_clean=$?; (cd $wt && git checkout -q -- . 2>/dev/null); fi
-git -C $wt apply $src/patch.diff || { echo "PATCH-DOES-NOT-APPLY"; exit 2; }
+git -C $wt apply $src/patch.diff 2>/dev/null || git -C $wt apply -3 $src/patch.diff 2>/dev/null || { echo "PATCH-DOES-NOT-APPLY (even with 3-way merge)"; exit 2; }
+(cd $wt && git reset -q 2>/dev/null)
 (cd $wt && go build ./... ) || { echo "DOES-NOT-BUILD"; exit 2; }
 ut=$(cd $wt && go test -vet=off -count=1 ./... 2>&1 | grep -c "^FAIL\|^--- FAIL")
 (cd $wt && git checkout -q go.mod go.sum 2>/dev/null)
